@@ -330,7 +330,9 @@ def find_irrelevant_type(etype: tp.Type, types: List[tp.Type],
                                  concrete_only=True)
     subtypes = find_subtypes(etype, types, include_self=True,
                              concrete_only=True)
-    relevant_types = supertypes + subtypes
+    # The top type is a supertype of every type, also of classes that do not
+    # list it among their declared supertypes.
+    relevant_types = supertypes + subtypes + [factory.get_any_type()]
     # If any type included in the list of relevant types is parameterized,
     # then create a map with their type arguments.
     type_args_map = {
